@@ -101,6 +101,7 @@ def subst_schema(ver, hblock, m1_abstract, hB_block, final=None):
  <xs:element name="h" type="B"{' block="%s"' % hblock if hblock else ''}/>
  <xs:element name="m1" type="E1" substitutionGroup="h"{' abstract="true"' if m1_abstract else ''}/>
  <xs:element name="m2" type="E2" substitutionGroup="m1"/>
+ <xs:element name="m0" type="B" substitutionGroup="h"/><xs:element name="m00" type="B" substitutionGroup="m0"/>
  <xs:element name="other" type="B"/>
  <xs:element name="r"><xs:complexType><xs:sequence><xs:element ref="h"/></xs:sequence></xs:complexType></xs:element></xs:schema>''')
 
@@ -112,7 +113,8 @@ def eval_subst(args):
     except xmlschema.XMLSchemaException as e: return dict(cases=0, bad=[])
     bad = []; n = 0
     blocked = eff(hblock, '') | eff(hB, '')
-    for tag, typ in (('h', 'B'), ('m1', 'E1'), ('m2', 'E2'), ('other', 'B')):
+    # (m0 / m00: members, one and two levels down, whose type IS the head's type: no derivation step, so only block="substitution" keeps them out)
+    for tag, typ in (('h', 'B'), ('m1', 'E1'), ('m2', 'E2'), ('other', 'B'), ('m0', 'B'), ('m00', 'B')):
         for cf in ('B', 'E1', 'E2'):
             n += 1
             d = f'<r>{doc(None, False, cf, tag)}</r>'
